@@ -19,7 +19,7 @@ FUNCTIONS = [
     "gbigsmiles.system.System.__init__ / generable / system_mass / generate_string (concrete component chemistry)",
 ]
 EXPLANATION = (
-    "For every assignment of {absolute, percent, unspecified} to k components (k<=3 quick, <=4 thorough), with and without a "
+    "For every assignment of {absolute, percent, unspecified} to k components (k<=3 quick, <=5 thorough), with and without a "
     "caller-supplied system mass, the written numbers are solver variables (masses in [1e-3,1e9], percentages in (0,100]). The real "
     "Mixture constructor parses them from symbolic text ('.|<numeral>|', '.|<numeral>%|'), the real _estimate_system_molecular_weight and the "
     "linked setters run on them. On every path: (soundness) if the code reports generable, z3 proves that every component has percentage, "
@@ -35,7 +35,7 @@ ASSUMPTIONS = [
     "component objects are stand-ins carrying only a .mixture attribute for the estimate function (System.__init__ is exercised separately on concrete chemistry)",
     "documented determined forms (README 'System object syntax'): all absolute; all but one in percent plus one absolute; percentages plus a caller-supplied system mass",
 ]
-OUTSIDE = ["k > 4 components", "determined forms README does not document (e.g. two absolute masses and one percentage) - a 'not generable' answer there is recorded as a note, not a violation",
+OUTSIDE = ["k > 5 components", "determined forms README does not document (e.g. two absolute masses and one percentage) - a 'not generable' answer there is recorded as a note, not a violation",
            "zero masses / zero percentages (bounds are strictly positive)"]
 REQUIRED_LABELS = ["sound:abs*100==pct*S", "sound:unique solution", "complete:documented form is generable", "roundtrip:mixture text keeps the mass"]
 
@@ -43,11 +43,11 @@ ABS, PCT, UN = "abs", "pct", "un"
 
 
 def bounds(tier):
-    return {"components": 3 if tier == "quick" else 4, "masses": "[1e-3, 1e9]", "percentages": "(0, 100]", "system mass": "absent or [1e-3, 1e9]"}
+    return {"components": 3 if tier == "quick" else 5, "masses": "[1e-3, 1e9]", "percentages": "(0, 100]", "system mass": "absent or [1e-3, 1e9]"}
 
 
 def cases(tier):
-    kmax = 3 if tier == "quick" else 4
+    kmax = 3 if tier == "quick" else 5
     out = []
     for k in range(1, kmax + 1):
         for kinds in itertools.product((ABS, PCT, UN), repeat=k):
